@@ -409,3 +409,6 @@ func DecodeValue(dec Decoder, t reflect.Type, n *Node) (reflect.Value, error) {
 	err := dec([]byte(n.JSON()), pv.Interface())
 	return pv.Elem(), err
 }
+
+// KeyAlphabet returns the field-specific alphabet of a JSON key (nil if the key has none).
+func KeyAlphabet(key string) []*Node { return keyAlphabets[key] }
